@@ -870,6 +870,35 @@ func ifsOn(v ssa.Value) []struct {
 	return out
 }
 
+// ifsOnConj is ifsOn that also follows a condition hoisted into a conjunction variable (`x := a && v`, lowered to a
+// phi of the constant false and v): on the true edge of an If on that variable v is true. (The false edge only says
+// "a is false or v is false".)
+func ifsOnConj(v ssa.Value) []struct {
+	If      *ssa.If
+	TrueIdx int
+} {
+	out := ifsOn(v)
+	for _, u := range usesOf(v) {
+		ph, ok := u.(*ssa.Phi)
+		if !ok {
+			continue
+		}
+		conj := true
+		for _, e := range ph.Edges {
+			if e == v {
+				continue
+			}
+			if b, isC := constBool(e); !isC || b {
+				conj = false
+			}
+		}
+		if conj {
+			out = append(out, ifsOn(ph)...)
+		}
+	}
+	return out
+}
+
 type ssaInstr = ssa.Instruction
 
 // flowsOnlyTo: every use of function value v (through cells, phis and closure captures inside root) is as an
